@@ -35,7 +35,80 @@ def plan(ctx):
         items.append(('grep-blame-name', engine.stable_hash((ctx.seed, 'c15g', i))))
     for i in range(ctx.n(600, 9000)):
         items.append(('default-language', engine.stable_hash((ctx.seed, 'c15d', i))))
+    for i in range(ctx.n(500, 8000)):
+        items.append(('syntax-word-only', engine.stable_hash((ctx.seed, 'c15w', i))))
     return items
+
+
+def run_syntax_word_only(rng):
+    """Two styles that meet inside a line and differ by the word 'syntax' only (--plus-style 'syntax X' next to
+    --plus-emph-style 'normal X'): the emphasised part keeps its configured (absent) foreground, also when the boundary falls
+    inside one token of the language.  Where the emphasised cells are is read from a reference run in which the emphasis style
+    has a background of its own."""
+    lang = rng.choice(sorted(snippets.SNIPPETS))
+    name = rng.choice(snippets.NAMES[lang])
+    ls = None
+    for _ in range(8):
+        ls = make_diff(rng, lang, name)
+        if ls:
+            break
+    if not ls:
+        return inconclusive('no diff')
+    base = gen.tagged_styles()
+    base['--paging'] = 'never'
+    base['--syntax-theme'] = rng.choice(gen.THEMES_DARK)
+    base['--dark'] = True
+    variant = rng.choice(['same-bg', 'no-bg', 'attr'])
+    tail = {'same-bg': lambda sl: ' ' + gen.TAGS[sl], 'no-bg': lambda sl: '', 'attr': lambda sl: ' bold'}[variant]
+    ref, test = dict(base), dict(base)
+    for side in ('minus', 'plus'):
+        for o in (ref, test):
+            o[SLOT_OPT[side]] = ('syntax' + tail(side)).strip()
+            o.pop(SLOT_OPT[side + '_nonemph'], None)
+        ref[SLOT_OPT[side + '_emph']] = 'normal ' + gen.TAGS[side + '_emph'] + (' bold' if variant == 'attr' else '')
+        test[SLOT_OPT[side + '_emph']] = ('normal' + tail(side)).strip()
+    view = 'sbs' if rng.random() < 0.25 else 'unified'
+    if view == 'sbs':
+        for o in (ref, test):
+            o['--side-by-side'] = True
+            o['--width'] = 160
+    data = ('\n'.join(ls) + '\n').encode()
+    a = runner.run_delta(gen.to_args(ref), data)
+    b = runner.run_delta(gen.to_args(test), data)
+    sets = {'languages': [lang], 'views': [view], 'sub': ['syntax-word-only'], 'syntax_word_variants': [variant]}
+    counters = {'cells_compared': 0, 'emph_cells_without_syntax': 0, 'pairs': 1}
+    for r in (a, b):
+        c = crash_outcome(r, ID)
+        if c is not None:
+            c['executions'] = 2
+            return c
+        if r.rc != 0:
+            return inconclusive('exit %d: %s' % (r.rc, r.err[:100]), sets=sets)
+
+    def bad(key, what, exp, obs):
+        o = violated('c15:syntax-word-only:' + key, what, exp, obs, run=b, counters=counters, sets=sets)
+        o['executions'] = 2
+        return o
+    ra, rb = term.decode(a.out), term.decode(b.out)
+    if len(ra) != len(rb):
+        return bad('row-count', 'the reference and the test run have different numbers of rows', len(ra), len(rb))
+    for i, (x, y) in enumerate(zip(ra, rb)):
+        if len(x.cells) != len(y.cells) or x.text() != y.text():
+            return bad('text', 'row %d differs in text between the two runs' % i, x.text()[:100], y.text()[:100])
+        for cx, cy in zip(x.cells, y.cells):
+            counters['cells_compared'] += 1
+            slot = gen.TAG_BY_RGB.get(cx.bg)
+            if slot in ('minus_emph', 'plus_emph'):
+                counters['emph_cells_without_syntax'] += 1
+                if cy.fg is not None:
+                    return bad('emph-recoloured:' + variant, "an emphasised character whose style is 'normal' (no 'syntax') carries a foreground colour of the theme "
+                               "(--%s-style %r, --%s-emph-style %r, row %d %r)" % (slot[:-5], test[SLOT_OPT[slot[:-5]]], slot[:-5], test[SLOT_OPT[slot]], i, x.text()[:60]),
+                               None, repr(cy.fg))
+            elif cx.fg != cy.fg:
+                return bad('other-cell-changed', 'a character outside the emphasised parts has another foreground in the test run (row %d)' % i, repr(cx), repr(cy))
+    o = held(sig=('syntax-word-only', lang, variant, view), nontrivial=counters['emph_cells_without_syntax'] > 0, counters=counters, sets=sets)
+    o['executions'] = 2
+    return o
 
 
 def make_diff(rng, lang, name, context=None, plain=False):
@@ -252,6 +325,8 @@ def run_item(item):
         return run_grep_blame_name(rng)
     if kind == 'default-language':
         return run_default_language(rng)
+    if kind == 'syntax-word-only':
+        return run_syntax_word_only(rng)
     lang = rng.choice(sorted(snippets.SNIPPETS))
     names = snippets.NAMES[lang]
     opts, syn, fixed = slot_styles(rng)
